@@ -73,17 +73,50 @@ def GCtx.epi (G : GCtx) (pi : PInfo) : List Dir :=
 def GCtx.ctxOf (G : GCtx) (pi : PInfo) : Xcmp.Ctx :=
   { tbl := G.cg.tbl, scope := pi.p.name, frame := pi.idx, exitLabel := G.xl pi }
 
-/-- Where the name `n`, seen from procedure `pi` running with stack pointer `sp`, lives. -/
+def located (sym : Symbol) : Bool := sym.type = .var || (sym.type = .val && !sym.isValDecl)
+
+/-- Where the name `n`, seen from procedure `pi` running with stack pointer `sp`, lives: the word
+    of its label (globals), or `sp` plus a constant (formals and locals). -/
 def GCtx.locOf (G : GCtx) (pi : PInfo) (sp : Nat) (n : String) : Option Nat :=
   match G.cg.tbl.lookup pi.p.name n with
   | .ok sym =>
-    if sym.type = .var ∨ (sym.type = .val ∧ sym.isValDecl = false) then
+    if located sym then
       if sym.scope = "" then (labelIdx G.env.ds sym.globalLabel).map fun j => G.env.addr j / 4
-      else
-        let a : Int := (sp : Int) + (G.S pi : Int) - 1 + sym.stackOffset
-        if 0 ≤ a then some a.toNat else none
+      else if 0 ≤ (G.S pi : Int) - 1 + sym.stackOffset then some (sp + ((G.S pi : Int) - 1 + sym.stackOffset).toNat)
+      else none
     else none
   | .error _ => none
+
+/-- The two kinds of location. -/
+theorem GCtx.locOf_cases (G : GCtx) (pi : PInfo) (sp : Nat) (n : String) (a : Nat) (h : G.locOf pi sp n = some a) :
+    (∃ sym, G.cg.tbl.lookup pi.p.name n = .ok sym ∧ sym.scope = "" ∧ ∀ sp', G.locOf pi sp' n = some a) ∨
+    (∃ sym, ∃ c : Nat, G.cg.tbl.lookup pi.p.name n = .ok sym ∧ sym.scope ≠ "" ∧
+      (c : Int) = (G.S pi : Int) - 1 + sym.stackOffset ∧ a = sp + c ∧ ∀ sp', G.locOf pi sp' n = some (sp' + c)) := by
+  unfold GCtx.locOf at h
+  cases hl : G.cg.tbl.lookup pi.p.name n with
+  | error e => rw [hl] at h; simp at h
+  | ok sym =>
+    rw [hl] at h
+    simp only at h
+    by_cases hloc : located sym = true
+    · rw [if_pos hloc] at h
+      by_cases hs : sym.scope = ""
+      · rw [if_pos hs] at h
+        refine Or.inl ⟨sym, rfl, hs, fun sp' => ?_⟩
+        unfold GCtx.locOf
+        rw [hl]
+        simp only [hloc, hs, if_true]
+        exact h
+      · rw [if_neg hs] at h
+        by_cases hc : 0 ≤ (G.S pi : Int) - 1 + sym.stackOffset
+        · rw [if_pos hc] at h
+          simp only [Option.some.injEq] at h
+          refine Or.inr ⟨sym, ((G.S pi : Int) - 1 + sym.stackOffset).toNat, rfl, hs, Int.toNat_of_nonneg hc, h.symm, fun sp' => ?_⟩
+          unfold GCtx.locOf
+          rw [hl]
+          simp only [hloc, hs, if_true, if_false, hc]
+        · rw [if_neg hc] at h; simp at h
+    · rw [if_neg hloc] at h; simp at h
 
 /-- The context of an activation of `pi` with stack pointer `sp` at nesting depth `dep`. -/
 def KOf (G : GCtx) (pi : PInfo) (sp dep : Nat) (hi : Nat → Word) : PCtx :=
@@ -138,7 +171,7 @@ structure GCtx.OK (G : GCtx) : Prop where
   top : G.spv + 2 < memWords
   lo_ge : 2 ≤ G.lo
   lo_def : G.lo + X.maxDepth * G.smax ≤ G.spv
-  addr_lt : ∀ j, G.env.addr j < 2 ^ 32
+  addr_lt : ∀ j k n, G.env.ds[j]? = some (.label k n) → G.env.addr j < 2 ^ 32
   const_lo : ∀ v l j k, (v, l) ∈ G.consts → G.env.ds[j]? = some (.label k l) → G.env.addr j / 4 < G.lo
 
 /-- **Specification of a callee**, independent of the caller: entered at its prologue with the
